@@ -3,12 +3,12 @@
 package pmc
 
 import (
-	"time"
 	"bytes"
 	"context"
 	"fmt"
 	"sort"
 	"strings"
+	"time"
 
 	"verif/kit"
 	"verif/ref"
@@ -52,13 +52,14 @@ type Event struct {
 }
 
 type World struct {
-	C       kit.Committee
-	R       *ref.Rules
-	Desc    bool
-	Invalid map[int]map[string]bool // per node: block tags its consumer rejects
-	SloppyValidator bool // consumer validators accept a missing block (robustness runs of C12)
-	CommitFails     bool // every commit callback fails
-	MaxCommits      int  // > 0: the consumer's commit callback fails from the (MaxCommits+1)-th block on (bounds runs in which a member decides heights alone)
+	C               kit.Committee
+	R               *ref.Rules
+	Desc            bool
+	Invalid         map[int]map[string]bool // per node: block tags its consumer rejects
+	SloppyValidator bool                    // consumer validators accept a missing block (robustness runs of C12)
+	CommitFails     bool                    // every commit callback fails
+	CommitFailsAt   map[int]bool            // the commit callback of these members (committee indices) fails
+	MaxCommits      int                     // > 0: the consumer's commit callback fails from the (MaxCommits+1)-th block on (bounds runs in which a member decides heights alone)
 	// Validate runs strict ValidateBlockConsensus on a different correct node (C03).
 	Validate func(block interfaces.Block, proof []byte, prevProof []byte) error
 	// Chain holds, per height, the (block, proof) pairs honest nodes committed so far (for sync events).
@@ -66,23 +67,23 @@ type World struct {
 
 // LNode = one honest node: real code + strict SPI fakes + shadow.
 type LNode struct {
-	W       *World
-	Idx     int
-	ID      primitives.MemberId
-	V       *lh.VerifNode
-	Trig    *kit.FakeTrigger
-	Store   *kit.Store
-	Comm    *kit.Comm
-	BU      *kit.BlockUtils
-	KM      *kit.KeyManager
-	Mem     *kit.Membership
-	Sh      *ref.Shadow
-	Commits []CommitRec
+	W             *World
+	Idx           int
+	ID            primitives.MemberId
+	V             *lh.VerifNode
+	Trig          *kit.FakeTrigger
+	Store         *kit.Store
+	Comm          *kit.Comm
+	BU            *kit.BlockUtils
+	KM            *kit.KeyManager
+	Mem           *kit.Membership
+	Sh            *ref.Shadow
+	Commits       []CommitRec
 	commitRefused bool // the consumer's commit callback returned an error at least once: the node stays in a height it decided
-	Proofs  [][]byte
-	Blocks  []interfaces.Block
-	Rounds  []string
-	Dead    string // non-empty after a panic
+	Proofs        [][]byte
+	Blocks        []interfaces.Block
+	Rounds        []string
+	Dead          string // non-empty after a panic
 	// CommitErr, if set, makes the commit callback fail (environment answer).
 	CommitErr bool
 	seq       []seqEv         // outputs and commits in the order they happened
@@ -101,7 +102,7 @@ func NewLNode(w *World, idx int) *LNode {
 	cfg := &interfaces.Config{InstanceId: kit.Instance, Communication: n.Comm, Membership: n.Mem, BlockUtils: n.BU, KeyManager: n.KM,
 		OverrideElectionTrigger: n.Trig, Storage: n.Store}
 	n.V = lh.NewVerifNode(cfg, func(ctx context.Context, b interfaces.Block, p []byte) error {
-		if n.CommitErr || w.CommitFails || (w.MaxCommits > 0 && len(n.Blocks) >= w.MaxCommits) {
+		if n.CommitErr || w.CommitFails || w.CommitFailsAt[idx] || (w.MaxCommits > 0 && len(n.Blocks) >= w.MaxCommits) {
 			n.commitRefused = true
 			return fmt.Errorf("consumer failed to commit")
 		}
